@@ -221,6 +221,8 @@ def _replay(root, h, vec, logs):
     def verdict(x):
         if x["timeout"]:
             return "does-not-terminate" if h.get("termination") else "timeout"
+        if x["panicked"] and "concrete_playback.rs" in x["msg"]:
+            return "values-do-not-fit: " + x["msg"]
         if x["panicked"]:
             return "fails: " + x["msg"]
         if x["returned"]:
@@ -258,6 +260,10 @@ def replay_file(path, scratch, keep=False):
             print(f"VIOLATION property={meta['property']} replay={path}")
             return 1
         if "build-error" in (rr["dev"], rr["release"]):
+            return 2
+        if rr["dev"].startswith("values-do-not-fit") or rr["release"].startswith("values-do-not-fit"):
+            print("the recorded values no longer fit the harness on this tree (it makes a different sequence of "
+                  "nondeterministic choices): cannot tell from the replay; run the check itself")
             return 2
         return 0
     finally:
